@@ -18,9 +18,21 @@ MUTANTS = [
          why="block definition keeps an empty index range -> reader cannot find the tile index"),
     dict(p="C01", id="vt-writer-dedup-wrong-key", file=V + "writer.rs",
          old="if let Some(range) = tile_hash_lookup.get(blob.as_slice()) {",
-         new="if let Some(range) = tile_hash_lookup.get(&blob.as_slice()[..blob.len().min(32)]) {",
+         new="if let Some(range) = tile_hash_lookup.get(&blob.as_slice()[..blob.len().min(32)].to_vec()) {",
          why="de-duplication keyed by a prefix: different payloads share one range (second edit below makes it effective)",
          edits=[("tile_hash_lookup.insert(blob.into_vec(), range);", "tile_hash_lookup.insert(blob.as_slice()[..blob.len().min(32)].to_vec(), range);")]),
+    dict(p="C01", id="vt-write-block-length-is-end", file=V + "writer.rs",
+         old="Ok((ByteRange::new(offset0, offset1 - offset0), index_range))", new="Ok((ByteRange::new(offset0, offset1), index_range))",
+         why="tiles_range.length recorded as the absolute end position"),
+    dict(p="C01", id="vt-header-ranges-crossed", file=V + "writer.rs",
+         old="header.meta_range = Self::write_meta(reader, writer).await?;", new="header.blocks_range = Self::write_meta(reader, writer).await?;",
+         why="meta range stored in the wrong header field (overwritten later: meta_range stays empty)"),
+    dict(p="C01", id="block-new-local-box-wrong-axis", file=V + "types/block_definition.rs",
+         old="			bbox.y_max - y * 256,", new="			bbox.y_max - x * 256,",
+         why="local y_max computed with the block column"),
+    dict(p="C01", id="block-new-position-div-255", file=V + "types/block_definition.rs",
+         old="let y = bbox.y_min.div(256u32);", new="let y = bbox.y_min.div(255u32);",
+         why="block row computed with the wrong divisor"),
     # ---------------------------------------------------------------- C02
     dict(p="C02", id="vt-stream-no-sort", file=V + "reader.rs",
          old="				tile_ranges.sort_by_key(|e| e.1.offset);\n", new="",
